@@ -143,6 +143,10 @@ class Renderer(object):
                 return "(not %s)" % a[0]
             if o == "tobi":
                 return "(%s::BI)" % a[0]
+            if o == "cat":
+                return "concat(%s, %s)" % (a[0], a[1])
+            if o == "len":
+                return "(#(%s))" % a[0]
             if o == "pow":
                 if not self.D["pow_bi_exp"]:
                     # libaldor: `^: (Integer, MachineInteger) -> Integer` returns its base when the base is 0 or 1, so
